@@ -11,8 +11,10 @@ apply (the tree was edited) makes the variant 'n/a', which is informational only
 MUTANTS: list = []
 
 
-def M(id, prop, file, rules, what, *edits, kind="break", count=1, control=True):
-    MUTANTS.append({"id": id, "prop": prop, "file": file, "rules": rules if isinstance(rules, list) else [rules], "what": what, "edits": list(edits), "kind": kind, "count": count, "control": control})
+def M(id, prop, file, rules, what, *edits, kind="break", count=1, control=True, base=None):
+    """base: id of a kept twin (/verif/twins/<id>/patch.diff) that is applied first - the edits
+    then break an accepted evolution, showing that the acceptance condition is no loophole."""
+    MUTANTS.append({"id": id, "prop": prop, "file": file, "rules": rules if isinstance(rules, list) else [rules], "what": what, "edits": list(edits), "kind": kind, "count": count, "control": control, "base": base})
 
 
 def T(id, prop, file, what, *edits, count=1):
@@ -584,6 +586,8 @@ M("c13-extra-closed-gate", "C13", "_context.py", "C13.R6", "async get_resource r
 T("c13-twin-closed-read-no-gate", "C13", "_context.py", "`closed` is read for a log message, not to refuse the call",
   ("            if isawaitable(generated_resource):\n                generated_resource = await generated_resource\n",
    "            if isawaitable(generated_resource):\n                generated_resource = await generated_resource\n                if self.closed:\n                    logger.debug(\"resource generated during teardown\")\n"))
+T("c13-twin-clearer-closed-error", "C13", "_context.py", "add_resource_factory reports a fully closed context with its own message before the guard (same exception type, same states)",
+  ("        self._ensure_state(ContextState.open)\n", "        if self._state is ContextState.closed:\n            raise RuntimeError(\"cannot add a resource factory: this context has already been closed\")\n\n        self._ensure_state(ContextState.open)\n"))
 M("c13-get-resource-unguarded", "C13", "_context.py", "C13.R1", "async get_resource has no guard",
   ("        self._ensure_state(ContextState.open, ContextState.closing)\n\n        # First check if there's already a matching resource in this context\n        key = (type, name)", "        # First check if there's already a matching resource in this context\n        key = (type, name)"))
 M("c13-guard-after-effect", "C13", "_context.py", "C13.R1", "add_teardown_callback guards after appending",
@@ -1152,3 +1156,20 @@ M("c19-union-any-member", "C19", "_context.py", "C19.R4", "multi-member unions t
 ''', '''                dependency.optional = True
                 dependency.cls = args[0]
 '''))
+
+
+# =============================================================================== broken variants of accepted evolutions
+M("c05-idle-skip-ignores-start", "C05", "_component.py", "C05.R3", "fast path skips children that have a start() of their own (the `start is Component.start` conjunct is dropped)",
+  ("        and component_class.prepare is Component.prepare\n        and component_class.start is Component.start\n", "        and component_class.prepare is Component.prepare\n"),
+  base="C05-e3", control=False)
+M("c05-idle-skip-ignores-children", "C05", "_component.py", "C05.R3", "fast path skips children that have children of their own",
+  ("        not context._child_component_contexts\n        and component_class.prepare", "        component_class.prepare"),
+  base="C05-e3", control=False)
+M("c04-generated-flag-cleared", "C04", "_context.py", "C04.R2", "the 'has generated resources' flag is cleared by add_resource: the unfiltered snapshot fast path inherits generated resources",
+  ("        container = ResourceContainer(value, types_, name, description)\n", "        container = ResourceContainer(value, types_, name, description)\n        self._has_generated_resources = False\n"),
+  base="C02-e1", control=False)
+M("c13-extra-gate-wrong-state", "C13", "_context.py", "C13.R6", "an extra 'clearer error' gate in add_teardown_callback that also fires while the context is closing",
+  ("        self._ensure_state(ContextState.open, ContextState.closing)\n        if not callable(callback)", "        if self.closed:\n            raise RuntimeError(\"cannot add a teardown callback to a closed context\")\n\n        self._ensure_state(ContextState.open, ContextState.closing)\n        if not callable(callback)"), control=False)
+M("c11-owner-remembered-by-helper", "C11", "_event.py", "C11.R6", "__get__ hands the owner to a helper that keeps it in a module-level list",
+  ("    def __get__(self, instance: Hashable, owner: Any) -> Signal[T_Event]:\n        if instance is None:\n            return self\n", "    def __get__(self, instance: Hashable, owner: Any) -> Signal[T_Event]:\n        if instance is None:\n            return self\n\n        remember_owner(instance)\n"),
+  ("@dataclass\nclass Signal(Generic[T_Event]):", "_seen_owners: list = []\n\n\ndef remember_owner(obj: object) -> None:\n    _seen_owners.append(obj)\n\n\n@dataclass\nclass Signal(Generic[T_Event]):"), control=False)
